@@ -4,23 +4,35 @@ use super::*;
 use crate::nested::bmoc::verif_bmoc as vb;
 
 // ---- all sky -------------------------------------------------------------------------------------
-/// radius >= pi (any centre, NaN centre included): exactly the 12 base cells, all full.
+/// radius >= pi (any centre, NaN centre included): the whole sky, full: every deepest cell is
+/// covered exactly once by a full entry pushed at depth 0 (builder as contract).
 fn check_allsky(d: u8) {
   let l = Layer::new(d);
   let r: f64 = kani::any();
   kani::assume(r >= PI);
-  let mut b = l.cone_coverage_approx_internal(kani::any(), kani::any(), r);
-  let m = b.to_bmoc();
-  assert!(m.get_depth_max() == d, "C06 all-sky BMOC has the layer depth as maximal depth");
-  let e = &m.entries;
-  assert!(e.len() == 12, "C06 radius >= pi: 12 entries");
-  let k: usize = kani::any(); kani::assume(k < 12);
-  assert!(e[k] == build_raw_value_pub(0, k as u64, true, d), "C06 radius >= pi: the whole sky as 12 full base cells");
+  let c: u64 = kani::any();
+  kani::assume(c < vb::n_hash(d));
+  vb::g_reset(c, d);
+  let b = l.cone_coverage_approx_internal(kani::any(), kani::any(), r);
+  let (last_hi, state, count, ok) = vb::g_snapshot();
+  assert!(b.depth_max_is(d), "C06 all-sky builder has the layer depth as maximal depth");
+  assert!(ok && count == 1 && state == 2, "C06 radius >= pi: every cell of the sphere is covered, once, by a full entry");
+  assert!(last_hi == vb::n_hash(d), "C06 radius >= pi: the 12 base cells, nothing beyond");
+  assert!(vb::g_npush() == 1, "C06 radius >= pi: a single run of depth-0 cells (12 full base cells)");
 }
-fn build_raw_value_pub(depth: u8, hash: u64, full: bool, dmax: u8) -> u64 { ((((hash << 1) | 1) << (1 + 2 * (dmax - depth) as u32)) | full as u64) }
-#[kani::proof] #[kani::unwind(14)] fn cone_allsky_d00() { check_allsky(0) }
-#[kani::proof] #[kani::unwind(14)] fn cone_allsky_d03() { check_allsky(3) }
-#[kani::proof] #[kani::unwind(14)] fn cone_allsky_d29() { check_allsky(29) }
+/// anything after the all-sky shortcut: reaching it means the shortcut was not taken
+fn reached_after_shortcut(_r: f64) -> bool { assert!(false, "C06 radius >= pi must take the all-sky shortcut"); kani::assume(false); true }
+macro_rules! allsky_h { ($name:ident, $d:literal) => {
+  #[kani::proof]
+  #[kani::stub(BMOCBuilderUnsafe::new, vb::ghost_new)]
+  #[kani::stub(BMOCBuilderUnsafe::push_all, vb::ghost_push_all)]
+  #[kani::stub(crate::has_best_starting_depth, reached_after_shortcut)]
+  #[kani::unwind(4)]
+  fn $name() { check_allsky($d) }
+} }
+allsky_h!(cone_allsky_d00, 0);
+allsky_h!(cone_allsky_d03, 3);
+allsky_h!(cone_allsky_d29, 29);
 
 // ---- thresholds ------------------------------------------------------------------------------------
 // sin is replaced by a memoised monotone function on [0, pi/2] (facts: deterministic per argument,
@@ -46,25 +58,40 @@ fn ax_sin_mono(x: f64) -> f64 {
   }
   r
 }
-/// to_shs_min_max(r, d), 0 < r <= pi, 0 <= d <= 0.85: for every angular distance a in
-/// [0, min(pi, r + d)]: shs(a) <= max (nothing touched is dropped, C05); for every a <= r - d:
-/// shs(a) <= min  and for a > r - d ... min <= shs(a) (full flag honest, C06): min and max are the
-/// squared half segments of r - d (0 if negative) and of min(r + d, pi).
+/// Thresholds per recursion level, through to_shs_min_max_array (the function the coverage calls):
+/// for 0 < r <= pi and cell sizes d_k in [0, 0.85], at every level k:
+///  (F) the 'fully covered' test `shs <= min_k` can only succeed when radius >= d_k -- for EVERY
+///      value of shs >= 0, zero included (a cell larger than the cone is never flagged full);
+///  (M) min_k <= max_k when radius >= d_k.
+#[kani::proof]
+#[kani::stub(f64::sin, ax_sin_mono)]
+#[kani::unwind(6)]
+fn cone_full_only_if_radius_ge_cell() {
+  let r: f64 = kani::any(); let d0: f64 = kani::any(); let d1: f64 = kani::any(); let d2: f64 = kani::any();
+  kani::assume(r > 0.0 && r <= PI && d0 >= 0.0 && d0 <= 0.85 && d1 >= 0.0 && d1 <= 0.85 && d2 >= 0.0 && d2 <= 0.85);
+  let arr = to_shs_min_max_array(r, vec![d0, d1, d2].into_boxed_slice());
+  assert!(arr.len() == 3, "one threshold pair per level");
+  let k: usize = kani::any(); kani::assume(k < 3);
+  let dk = if k == 0 { d0 } else if k == 1 { d1 } else { d2 };
+  let shs: f64 = kani::any();
+  kani::assume(shs >= 0.0 && shs <= 1.0);            // any squared half segment, 0 included
+  if shs <= arr[k].min { assert!(r >= dk, "C06 a cell larger than the cone is never flagged fully covered (whatever its centre distance, 0 included)"); }
+  kani::cover!(r < dk && k == 2, "radius below the cell size at a deeper level");
+}
+/// (T) monotone thresholds: a centre within radius + d (clamped to pi) passes `shs <= max`, a centre
+/// within radius - d passes `shs <= min`; needs two double products: time-bounded refutation search.
 #[kani::proof]
 #[kani::stub(f64::sin, ax_sin_mono)]
 #[kani::unwind(6)]
 fn cone_thresholds_contract() {
   let r: f64 = kani::any(); let d: f64 = kani::any(); let a: f64 = kani::any();
   kani::assume(r > 0.0 && r <= PI && d >= 0.0 && d <= 0.85 && a >= 0.0 && a <= PI);
-  let mm = to_shs_min_max(r, d);
+  let arr = to_shs_min_max_array(r, vec![d].into_boxed_slice());
   let shs_a = crate::to_squared_half_segment(a);
-  if a <= r + d { assert!(shs_a <= mm.max, "C05 a centre within radius + cell size passes the 'descend / keep' threshold"); }
-  if a <= r - d { assert!(shs_a <= mm.min, "C06 a centre within radius - cell size passes the 'fully inside' threshold"); }
-  if shs_a < mm.min { assert!(r >= d, "C06 'fully inside' is never granted when the cell size exceeds the radius"); }
-  assert!(mm.min <= mm.max, "C05/C06 thresholds ordered");
-  if r < d { assert!(mm.min == 0.0, "C06 no cell is full when the radius is below the cell size"); }
+  if a <= r + d { assert!(shs_a <= arr[0].max, "C05 a centre within radius + cell size passes the 'descend / keep' threshold"); }
+  if a <= r - d { assert!(shs_a <= arr[0].min, "C06 a centre within radius - cell size passes the 'fully inside' threshold"); }
+  if r >= d { assert!(arr[0].min <= arr[0].max, "C05/C06 thresholds ordered"); }
   kani::cover!(r + d > PI, "radius + cell size beyond pi (clamped)");
-  kani::cover!(r < d);
 }
 
 // ---- recursion contract ------------------------------------------------------------------------------
